@@ -31,6 +31,7 @@ import (
 	"tkestack.io/galaxy/pkg/api/k8s"
 	"verif/harness/evid"
 	"verif/harness/fakes"
+	"verif/harness/hostports"
 )
 
 type hpStep struct {
@@ -88,7 +89,7 @@ const foreignNat = `*nat
 COMMIT
 `
 
-func genHistory(rng *rand.Rand, alloc *portAllocator, idx int) *hpHistory {
+func genHistory(rng *rand.Rand, alloc *hostports.Allocator, idx int) *hpHistory {
 	h := &hpHistory{Index: idx}
 	h.Foreign = fmt.Sprintf(foreignNat, rng.Intn(100), 1000+rng.Intn(60000), 2+rng.Intn(250), 1000+rng.Intn(60000))
 	protos := []string{"TCP", "UDP"}
@@ -98,7 +99,7 @@ func genHistory(rng *rand.Rand, alloc *portAllocator, idx int) *hpHistory {
 		p := &podModel{NS: []string{"default", "ns1", "kube-system"}[rng.Intn(3)], Name: fmt.Sprintf("hp%d-%d", idx, i), Form: "none"}
 		fixed := func(n int) {
 			for j := 0; j < n; j++ {
-				if hp := alloc.take(); hp != 0 {
+				if hp := alloc.Take(); hp != 0 {
 					p.Ports = append(p.Ports, podPort{HostPort: hp, ContainerPort: int32(9000 + rng.Intn(500)), Proto: protos[rng.Intn(2)],
 						HostIP: hostIPs[rng.Intn(len(hostIPs))]})
 				}
@@ -134,7 +135,7 @@ func genHistory(rng *rand.Rand, alloc *portAllocator, idx int) *hpHistory {
 	c := mkPod([]int{0, 1, 2, 3}[rng.Intn(4)])
 	holdFirst := rng.Intn(2) == 0
 	if holdFirst {
-		h.HeldPort, h.HeldProto = alloc.take(), protos[rng.Intn(2)]
+		h.HeldPort, h.HeldProto = alloc.Take(), protos[rng.Intn(2)]
 		h.Steps = append(h.Steps, hpStep{Kind: "hold", Pod: -1})
 	}
 	add("add", a)
@@ -142,7 +143,7 @@ func genHistory(rng *rand.Rand, alloc *portAllocator, idx int) *hpHistory {
 	// a pod whose fixed port is taken: its own free port comes first, so that something is open when the clash is hit
 	if rng.Intn(3) != 0 {
 		t := mkPod(0)
-		if hp := alloc.take(); hp != 0 {
+		if hp := alloc.Take(); hp != 0 {
 			t.Ports = append(t.Ports, podPort{HostPort: hp, ContainerPort: 7001, Proto: protos[rng.Intn(2)]})
 		}
 		if rng.Intn(3) == 0 {
@@ -1186,7 +1187,7 @@ func c14Batch(run *evid.Run, env *runEnv, tier string, from, to, portBase int) {
 		b, _ := json.Marshal(m)
 		cfg.JSONText = string(b)
 	}
-	alloc := newPortAllocator()
+	alloc := hostports.New()
 	_ = portBase
 	for hi := from; hi < to; hi++ {
 		rng := run.Rng("c14-history", hi)
